@@ -728,6 +728,70 @@ func runC14(c *mon.Ctx) {
 
 	// ------------------------------------------------------------------
 	c.Stratum("post", c.N(1500, 150000), func(k *mon.Case) { c14post(k, c.Thorough()) })
+	// the standard glyph order as the library knows it: names read from
+	// spec-side tables (format 1; format 2 with standard indices only) are
+	// written again and must be seen unchanged by the independent reader
+	c.Stratum("post-std", c.N(40, 2000), func(k *mon.Case) {
+		r := k.Rng
+		var data []byte
+		hdr := make([]byte, 32)
+		if k.Index%2 == 0 {
+			hdr[1] = 1
+			data = hdr
+		} else {
+			hdr[1] = 2
+			n := 258
+			if k.Index%4 == 3 {
+				n = 1 + r.IntN(600)
+			}
+			data = binary.BigEndian.AppendUint16(hdr, uint16(n))
+			perm := r.Perm(258)
+			for i := 0; i < n; i++ {
+				data = binary.BigEndian.AppendUint16(data, uint16(perm[i%258]))
+			}
+		}
+		k.Input(data)
+		ref, err := tabread.ReadPost(data)
+		if err != nil {
+			k.Fail("mismatch", "harness:post-std-generator", "%v", err)
+			return
+		}
+		var info *post.Info
+		if k.Guard("post.Read", func() { info, err = post.Read(bytes.NewReader(data)) }) {
+			return
+		}
+		k.Eval()
+		if err != nil {
+			k.Fail("mismatch", "post:read-rejects-well-formed", "%v", err)
+			return
+		}
+		var enc []byte
+		if k.Guard("post.Info.Encode", func() { enc = info.Encode() }) {
+			return
+		}
+		back, err := tabread.ReadPost(enc)
+		k.Eval()
+		if err != nil {
+			k.Fail("mismatch", "post:independent-reader-rejects", "%v", err)
+			return
+		}
+		if len(back.Names) != len(info.Names) || len(info.Names) != len(ref.Names) {
+			k.Fail("mismatch", "post:standard-names-count", "%d names in the table, %d read, %d seen after writing them", len(ref.Names), len(info.Names), len(back.Names))
+			return
+		}
+		for i, s := range info.Names {
+			if back.Names[i] != s {
+				k.Fail("mismatch", "post:standard-name-written-differently", "glyph %d: the library writes %q, the independent reader sees %q", i, s, back.Names[i])
+				break
+			}
+			if ref.Names[i] != s {
+				k.Fail("mismatch", "post:standard-name-read-differently", "glyph %d: the table says %q, the library reads %q", i, ref.Names[i], s)
+				break
+			}
+		}
+		k.Class("post:standard-order-spec-side")
+	})
+	c.Require("post:standard-order-spec-side")
 	c.Require("post:format-1", "post:format-2", "post:format-3", "post:permutation", "post:subset", "post:custom-names",
 		"post:custom-255-bytes", "post:duplicates", "post:1-glyph", "post:65535-glyphs", "ximage:glyphname-agrees")
 }
